@@ -62,7 +62,25 @@ func famOp(fam int, composite bool, tag string) func() {
 			}
 		case 4:
 			k := age.Collator[int]().Make()
-			return func() { k.RankValues(xs[0], v); k.CompareValues(xs[1], v) }
+			ka := age.Collator[any]().Make()
+			// a Go type this party is the first to collate (the warm-up parties "w" and "x" use types of their own)
+			var fresh1, fresh2 any
+			switch tag {
+			case "a":
+				fresh1, fresh2 = []c19intA{1}, []c19intA{2}
+			case "b":
+				fresh1, fresh2 = []c19intB{1}, []c19intB{2}
+			case "w":
+				fresh1, fresh2 = []c19intW{1}, []c19intW{2}
+			default:
+				fresh1, fresh2 = []c19intX{1}, []c19intX{2}
+			}
+			return func() {
+				k.RankValues(xs[0], v)
+				k.CompareValues(xs[1], v)
+				ka.CompareValues(fresh1, fresh2)
+				ka.RankValues(fresh1, fresh2)
+			}
 		case 5:
 			return func() { _ = any(l).(interface{ String() string }).String(); _ = mod.FormatValue(s) }
 		case 6:
@@ -128,12 +146,18 @@ func VF_C19_Pairs(fa, fb int) {
 	vf.Reach("end")
 }
 
+type c19intA int
+type c19intB int
+type c19intW int
+type c19intX int
+
 type c19tagA struct{ X int }
 type c19tagB struct{ Y int }
 
 // VF_C19_Classes: two goroutines ask for class accessors at the same time (same or different
 // type parameters, never used before): both get the one class of the type, with no race.
 func VF_C19_Classes(acc, same int) {
+	vf.Track(0) // switch the access log on: every access of the two goroutines below is recorded with its lockset
 	var r [2]any
 	get := func(i int, second bool) {
 		switch acc {
@@ -192,5 +216,66 @@ func VF_C19_Classes(acc, same int) {
 		vf.Assert("different-types-different-classes", r[0] != r[1])
 	}
 	vf.Assert("no-interference-on-the-class-registry", vf.InterferenceG() == 0)
+	vf.Reach("end")
+}
+
+// VF_C19_CrossClasses: two goroutines use *different* class accessors for the first time at the same moment
+// (a for one new type, b for another): every registry is guarded by its own lock, no access without one.
+func VF_C19_CrossClasses(a, b int) {
+	get := func(kind int, second bool) any {
+		if !second {
+			switch kind {
+			case 0:
+				return col.List[c19tagA](nil)
+			case 1:
+				return age.Sorter[c19tagA]()
+			case 2:
+				return age.Collator[c19tagA]()
+			case 3:
+				return col.Set[c19tagA](nil)
+			case 4:
+				return col.Catalog[int, c19tagA](nil)
+			case 5:
+				return age.Iterator[c19tagA]()
+			case 6:
+				return col.Queue[c19tagA](nil)
+			case 7:
+				return col.Stack[c19tagA](nil)
+			case 8:
+				return col.Array[c19tagA](nil)
+			}
+			return col.Map[int, c19tagA](nil)
+		}
+		switch kind {
+		case 0:
+			return col.List[c19tagB](nil)
+		case 1:
+			return age.Sorter[c19tagB]()
+		case 2:
+			return age.Collator[c19tagB]()
+		case 3:
+			return col.Set[c19tagB](nil)
+		case 4:
+			return col.Catalog[int, c19tagB](nil)
+		case 5:
+			return age.Iterator[c19tagB]()
+		case 6:
+			return col.Queue[c19tagB](nil)
+		case 7:
+			return col.Stack[c19tagB](nil)
+		case 8:
+			return col.Array[c19tagB](nil)
+		}
+		return col.Map[int, c19tagB](nil)
+	}
+	vf.Track(0) // switch the access log on
+	var r [2]any
+	var wg sync.WaitGroup
+	wg.Add(2)
+	go func() { defer wg.Done(); r[0] = get(a, false) }()
+	go func() { defer wg.Done(); r[1] = get(b, true) }()
+	wg.Wait()
+	vf.Assert("both-classes-exist", r[0] != nil && r[1] != nil)
+	vf.Assert("no-interference-on-the-class-registries", vf.InterferenceG() == 0)
 	vf.Reach("end")
 }
